@@ -30,6 +30,11 @@ theorem prefix_view_is_the_contract_on_its_namespace (p : Bz) (hp : p ≠ []) (M
     viewRange p M s e rev = kvRange (subMap p M) s e rev :=
   viewRange_eq p hp M s e rev
 
+/-- ... and a point read through the view (`prefixDB.Get` reads `prefix ++ k` of the parent) is the lookup in that
+    sub-map: keys of other namespaces are never seen -/
+theorem prefix_view_point_read (p : Bz) (M : SMapB) (k : Bytes) : lookup (p ++ k) M = lookup k (subMap p M) :=
+  viewGet_eq p M k
+
 /-- non-vacuity: the namespace `p\xff` next to `q`: the open-ended reverse iteration shows the namespace only -/
 example :
     viewRange [0x70, 0xff] [([0x70, 0xfe, 1], [9]), ([0x70, 0xff], [1]), ([0x70, 0xff, 0], [2]), ([0x70, 0xff, 0xff], [3]), ([0x71], [4])]
